@@ -206,7 +206,7 @@ func cmpStringNumeric(t iterator, op string, m, n interface{}) bool {
 	if err != nil {
 		num = math.NaN()
 	}
-	return cmpNumberNumberF(op, b, num)
+	return cmpNumberNumberF(op, num, b)
 }
 
 func cmpStringString(t iterator, op string, m, n interface{}) bool {
